@@ -407,6 +407,43 @@ def run_insitu(ctx, spec):
             R.t2incons.t2incon(f)
         report(ctx, mon, case)
         ctx.case(('insitu', case['file']), nontrivial=(mon.nf + mon.ni - n0) > 0, sample=True)
+    # the timing record after '+++': its fields sliced by hand with the widths of the file's own flavour (TOUGHREACT
+    # restart files - block records with three permeabilities after the porosity - write it as 2I6,I3,2E15.9, all others
+    # as 3I5,2E15.9) must be what a FRESH object gives; shipped files and the same files with larger step counters
+    for f in incons:
+        with open(f, 'rb') as fh:
+            lines = fh.read().decode('latin-1').split('\n')
+        k = next((i for i, l in enumerate(lines) if l.startswith('+++')), None)
+        if k is None or k + 1 >= len(lines) or not lines[k + 1].strip():
+            continue
+        react = any(len(l.rstrip()) > 50 and l[35:50].strip() for l in lines[1:k:2])
+        widths = [6, 6, 3, 15, 15] if react else [5, 5, 5, 15, 15]
+        variants = [('as-shipped', lines[k + 1])]
+        big = [99999, 123456, 12] if react else [99999, 12345, 7]
+        w = lines[k + 1].rstrip('\r').ljust(sum(widths))
+        variants.append(('large-counters', ''.join(str(v).rjust(n) for v, n in zip(big, widths)) + w[sum(widths[:3]):]))
+        for vname, tline in variants:
+            case = {'file': os.path.relpath(f, REPO), 'kind': 'incon-timing-record', 'variant': vname, 'line': tline}
+            fn = os.path.join(ctx.tmp, 'c16_timing_' + os.path.basename(f))
+            with open(fn, 'wb') as fh:
+                fh.write('\n'.join(lines[:k + 1] + [tline] + lines[k + 2:]).encode('latin-1'))
+            t = tline.rstrip('\r').ljust(sum(widths))
+            want, pos = [], 0
+            for i, n in enumerate(widths):
+                fld = t[pos:pos + n]
+                pos += n
+                want.append(FR.ref_int(fld, None)[1] if i < 3 else FR.ref_float(fld, None)[1])
+            with ctx.guard(case, where='insitu-incon-timing'):
+                inc = R.t2incons.t2incon(fn)
+                ctx.count('timing_records_read')
+                ctx.see('timing_flavour', 'toughreact' if react else 'tough2')
+                got = inc.timing and [inc.timing[x] for x in ('kcyc', 'iter', 'nm', 'tstart', 'sumtim')]
+                if got is None or any((a is None) != (b is None) or (a is not None and float(a) != float(b)) for a, b in zip(got, want)):
+                    ctx.violation('wrong-value:timing-record:' + ('toughreact' if react else 'tough2'),
+                                  '%s (%s): timing record %r read as %r, its fields (%s) read %r' % (
+                                      case['file'], vname, tline, got, ','.join(map(str, widths)), want), case)
+            os.remove(fn)
+            report(ctx, mon, case)
     # the same numbers when the file simply ends after its last record (no final newline, as files cut or
     # produced by other tools do): the last field of the last line must read as it does in the full file
     for f in incons:
